@@ -44,15 +44,41 @@ def feature_tables(n, small=False):
                       ("misc_feature", [(0, 0, None)], {"label": ["origin"]})])
     if n >= 3:
         extra.append([("misc_feature", [(0, 1, 1), (2, 2, 1)], {"label": ["join-with-marker"]})])
+    if n >= 3:
+        # approximate boundaries (GenBank `(1.2)..3`, `1^2`-style between positions, one-of, `<1..>3`): the position classes of
+        # Biopython other than ExactPosition; the feature still denotes the stretch between its default coordinates
+        extra.append([("misc_feature", [(1, 3, 1, "within")], {"label": ["within"]}), ("misc_feature", [(0, 2, -1, "oneof")], {"label": ["oneof"]})])
+        extra.append([("misc_feature", [(n - 2, n, 1, "between")], {"label": ["between"]}), ("misc_feature", [(0, n - 1, 1, "open")], {"label": ["open-ended"]}),
+                      ("gene", [(n - 1, n, 1, "within"), (0, 1, 1, "oneof")], {"label": ["fuzzy-join"]})])
     if small:
         keep = [0, 1, 2, 4, 5, 6, 8, 10, 12, 13]
         tables = [t for i, t in enumerate(tables) if i in keep]
     return tables + extra
 
 
+def fuzzy_bounds(s, e, kind):
+    """start / end position objects of the given flavour whose default coordinates are s and e"""
+    from Bio.SeqFeature import WithinPosition, BetweenPosition, OneOfPosition, BeforePosition, AfterPosition, ExactPosition
+    if kind == "within":
+        return WithinPosition(s, left=s, right=s + 1), WithinPosition(e, left=max(e - 1, s), right=e)
+    if kind == "between":
+        return BetweenPosition(s, left=s, right=s + 1), BetweenPosition(e, left=max(e - 1, s), right=e)
+    if kind == "oneof":
+        return OneOfPosition(s, [ExactPosition(s), ExactPosition(s + 1)]), OneOfPosition(e, [ExactPosition(e), ExactPosition(max(e - 1, s))])
+    if kind == "open":
+        return BeforePosition(s), AfterPosition(e)
+    return ExactPosition(s), ExactPosition(e)
+
+
 def build_location(parts):
     from Bio.SeqFeature import FeatureLocation, CompoundLocation
-    locs = [FeatureLocation(s, e, strand=st) for (s, e, st) in parts]
+    locs = []
+    for p in parts:
+        if len(p) > 3 and p[3]:
+            a, b = fuzzy_bounds(p[0], p[1], p[3])
+            locs.append(FeatureLocation(a, b, strand=p[2]))
+        else:
+            locs.append(FeatureLocation(p[0], p[1], strand=p[2]))
     return locs[0] if len(locs) == 1 else CompoundLocation(locs)
 
 
